@@ -12,6 +12,7 @@ from mc.world import reset_globals
 
 INCL = list(itertools.product((True, False), repeat=2))
 BOUNDS = [None, (0, None), (None, 10), (0, 10)]
+FRAC_BOUNDS = [(0.5, 10), (0, 10.5), (-10, -0.5), (None, 7.5), (0.5, None)]
 
 
 def configs():
@@ -26,6 +27,9 @@ def configs():
             for b in BOUNDS:
                 for inc in (INCL if b else [(True, True)]):
                     add(t, allow_None=an, bounds=b, inclusive=inc)
+        for b in FRAC_BOUNDS:
+            for inc in INCL:
+                add('Integer', allow_None=an, bounds=b, inclusive=inc)
         for b in BOUNDS:
             for inc in (INCL if b else [(True, True)]):
                 add('Range', allow_None=an, bounds=b, inclusive=inc)
@@ -38,21 +42,21 @@ def configs():
         add('XYCoordinates', allow_None=an)
         add('Date', allow_None=an)
         add('CalendarDate', allow_None=an)
-        for it in (None, 'int', 'int_str', 'str', 'float'):
+        for it in (None, 'int', 'int_str', 'str', 'float', 'bool'):
             for b in ((0, None), (1, 2)):
                 add('List', allow_None=an, item_type=it, bounds=b)
         add('Dict', allow_None=an)
-        for objs in ('ints', 'strs', 'mixed', 'floats', 'with_none', 'empty', 'dict'):
+        for objs in ('ints', 'strs', 'mixed', 'floats', 'with_none', 'empty', 'dict', 'samename', 'dict_open'):
             add('Selector', allow_None=an, objects=objs)
             add('ListSelector', allow_None=an, objects=objs)
-        for c in ('int', 'str', 'float', 'int_str', 'dict', 'list'):
+        for c in ('int', 'str', 'float', 'int_str', 'dict', 'list', 'bool', 'bool_str'):
             add('ClassSelector', allow_None=an, cls=c)
     return out
 
 
-TYPES = {'int': int, 'str': str, 'float': float, 'int_str': (int, str), 'dict': dict, 'list': list, None: None}
+TYPES = {'int': int, 'str': str, 'float': float, 'int_str': (int, str), 'dict': dict, 'list': list, 'bool': bool, 'bool_str': (bool, str), None: None}
 OBJS = {'ints': [1, 2, 3], 'strs': ['a', 'b'], 'mixed': [1, 'a', 2.5], 'floats': [0.5, 1.5], 'with_none': [None, 1, 'a'], 'empty': [],
-        'dict': {'one': 1, 'two': 'b'}}
+        'dict': {'one': 1, 'two': 'b'}, 'samename': [1, '1', 2], 'dict_open': {'one': 1, 'two': 2}}
 
 
 def build(param, cfg):
@@ -66,7 +70,7 @@ def build(param, cfg):
         kw['bounds'] = b
         kw['inclusive_bounds'] = inc
         lo, hi = b if b else (None, None)
-        cand = [1, 5, 9, 0, 10, -3, 12, 10 ** 6, -10 ** 6]
+        cand = [1, 5, 9, 0, 10, -3, 12, 7, 8, -1, -10, 11, 10 ** 6, -10 ** 6]
         if t != 'Integer':
             cand += [0.5, 9.5, 0.0, 10.0, math.nextafter(0.0, 1), math.nextafter(10.0, 0), -2.5, 1e300]
 
@@ -109,7 +113,8 @@ def build(param, cfg):
     elif t == 'List':
         kw['item_type'] = TYPES[cfg['item_type']]
         kw['bounds'] = cfg['bounds']
-        pool = {None: [[1], [1, 'a'], ['a', 2.5]], 'int': [[1], [1, 2]], 'int_str': [[1], ['a', 2]], 'str': [['a'], ['a', 'b']], 'float': [[0.5], [0.5, 1.5]]}
+        pool = {None: [[1], [1, 'a'], ['a', 2.5]], 'int': [[1], [1, 2]], 'int_str': [[1], ['a', 2]], 'str': [['a'], ['a', 'b']], 'float': [[0.5], [0.5, 1.5]],
+                'bool': [[True], [True, False]]}
         vals = list(pool[cfg['item_type']])
         if cfg['bounds'] == (0, None):
             vals.append([])
@@ -119,13 +124,17 @@ def build(param, cfg):
         o = OBJS[cfg['objects']]
         kw['objects'] = list(o) if isinstance(o, list) else dict(o)
         objs = list(o.values()) if isinstance(o, dict) else list(o)
+        if cfg['objects'] == 'dict_open':
+            kw['check_on_set'] = False
+            objs = objs + [5]          # a value of an already present JSON type that is not (yet) among the named objects
         if t == 'Selector':
             vals = list(objs)
         else:
             vals = [[]] + [[x] for x in objs] + ([objs] if objs else [])
     elif t == 'ClassSelector':
         kw['class_'] = TYPES[cfg['cls']]
-        vals = {'int': [1, -5], 'str': ['a', ''], 'float': [0.5], 'int_str': [1, 'a'], 'dict': [{}, {'a': 1}], 'list': [[], [1]]}[cfg['cls']]
+        vals = {'int': [1, -5], 'str': ['a', ''], 'float': [0.5], 'int_str': [1, 'a'], 'dict': [{}, {'a': 1}], 'list': [[], [1]],
+                'bool': [True, False], 'bool_str': [True, 'a']}[cfg['cls']]
     if cfg['allow_None']:
         vals = vals + [None]
 
